@@ -6,6 +6,7 @@ package main
 
 import (
 	"fmt"
+	"math"
 	"math/bits"
 	"strconv"
 	"strings"
@@ -17,6 +18,7 @@ const (
 	SBool SortKind = iota
 	SBV
 	SInt
+	SFP // IEEE binary64
 )
 
 type Sort struct {
@@ -30,6 +32,8 @@ func (s Sort) String() string {
 		return "Bool"
 	case SBV:
 		return fmt.Sprintf("(_ BitVec %d)", s.W)
+	case SFP:
+		return "(_ FloatingPoint 11 53)"
 	default:
 		return "Int"
 	}
@@ -37,6 +41,7 @@ func (s Sort) String() string {
 
 var BoolSort = Sort{SBool, 0}
 var IntSort = Sort{SInt, 0}
+var FPSort = Sort{SFP, 0}
 
 func BV(w int) Sort { return Sort{SBV, w} }
 
@@ -79,6 +84,21 @@ const (
 	OILe
 	OBV2Int // signed interpretation of bv -> Int
 	OApp    // uninterpreted function application (Name), result sort in term
+	// IEEE binary64, round to nearest even (Go's float64 arithmetic)
+	OFAdd
+	OFSub
+	OFMul
+	OFDiv
+	OFNeg
+	OFLt
+	OFLe
+	OFEq // fp.eq: NaN != NaN, -0 == +0
+	OFIsNaN
+	OFIsNeg
+	OFFromBits // reinterpret a 64-bit vector
+	OFFromSBV  // signed integer bit-vector -> float64
+	OFFromInt  // mathematical integer -> float64
+	OFRound32  // float64 -> float32 -> float64
 )
 
 var opNames = map[Op]string{
@@ -858,6 +878,104 @@ func App(name string, s Sort, args ...*Term) *Term {
 }
 
 // ---------------------------------------------------------------------------
+// IEEE binary64 terms. Constants carry the bit pattern in U; folding uses the
+// host's float64 arithmetic, which is the same round-to-nearest-even.
+
+func FPC(f float64) *Term { return mkTerm(Term{Op: OConst, S: FPSort, U: math.Float64bits(f)}) }
+
+func (t *Term) FVal() float64 { return math.Float64frombits(t.U) }
+
+func fpBin(op Op, a, b *Term) *Term {
+	if a.IsConst() && b.IsConst() {
+		x, y := a.FVal(), b.FVal()
+		switch op {
+		case OFAdd:
+			return FPC(x + y)
+		case OFSub:
+			return FPC(x - y)
+		case OFMul:
+			return FPC(x * y)
+		case OFDiv:
+			return FPC(x / y)
+		}
+	}
+	return mkTerm(Term{Op: op, S: FPSort, Args: []*Term{a, b}})
+}
+
+func FAdd(a, b *Term) *Term { return fpBin(OFAdd, a, b) }
+func FSub(a, b *Term) *Term { return fpBin(OFSub, a, b) }
+func FMul(a, b *Term) *Term { return fpBin(OFMul, a, b) }
+func FDiv(a, b *Term) *Term { return fpBin(OFDiv, a, b) }
+
+func FNeg(a *Term) *Term {
+	if a.IsConst() {
+		return FPC(-a.FVal())
+	}
+	return mkTerm(Term{Op: OFNeg, S: FPSort, Args: []*Term{a}})
+}
+
+func fpCmp(op Op, a, b *Term) *Term {
+	if a.IsConst() && b.IsConst() {
+		x, y := a.FVal(), b.FVal()
+		switch op {
+		case OFLt:
+			return BoolC(x < y)
+		case OFLe:
+			return BoolC(x <= y)
+		case OFEq:
+			return BoolC(x == y)
+		}
+	}
+	return mkTerm(Term{Op: op, S: BoolSort, Args: []*Term{a, b}})
+}
+
+func FLt(a, b *Term) *Term { return fpCmp(OFLt, a, b) }
+func FLe(a, b *Term) *Term { return fpCmp(OFLe, a, b) }
+func FEq(a, b *Term) *Term { return fpCmp(OFEq, a, b) }
+
+func FIsNaN(a *Term) *Term {
+	if a.IsConst() {
+		return BoolC(a.FVal() != a.FVal())
+	}
+	return mkTerm(Term{Op: OFIsNaN, S: BoolSort, Args: []*Term{a}})
+}
+
+func FIsNeg(a *Term) *Term {
+	if a.IsConst() {
+		return BoolC(math.Signbit(a.FVal()) && a.FVal() == a.FVal())
+	}
+	return mkTerm(Term{Op: OFIsNeg, S: BoolSort, Args: []*Term{a}})
+}
+
+func FFromBits(a *Term) *Term {
+	if a.IsConst() {
+		return mkTerm(Term{Op: OConst, S: FPSort, U: a.U})
+	}
+	return mkTerm(Term{Op: OFFromBits, S: FPSort, Args: []*Term{a}})
+}
+
+func FFromSBV(a *Term) *Term {
+	if a.IsConst() {
+		return FPC(float64(a.SVal()))
+	}
+	return mkTerm(Term{Op: OFFromSBV, S: FPSort, Args: []*Term{a}})
+}
+
+func FRound32(a *Term) *Term {
+	if a.IsConst() {
+		return FPC(float64(float32(a.FVal())))
+	}
+	return mkTerm(Term{Op: OFRound32, S: FPSort, Args: []*Term{a}})
+}
+
+func FFromInt(a *Term) *Term {
+	if a.IsConst() {
+		return FPC(float64(a.I))
+	}
+	return mkTerm(Term{Op: OFFromInt, S: FPSort, Args: []*Term{a}})
+}
+
+// ---------------------------------------------------------------------------
 // printing (debug) and SMT-LIB constants
 
 func smtConst(t *Term) string {
@@ -872,6 +990,8 @@ func smtConst(t *Term) string {
 			return fmt.Sprintf("#x%0*x", t.S.W/4, t.U)
 		}
 		return fmt.Sprintf("#b%0*b", t.S.W, t.U)
+	case SFP:
+		return fmt.Sprintf("(fp #b%b #b%011b #b%052b)", t.U>>63, (t.U>>52)&0x7ff, t.U&(1<<52-1))
 	default:
 		if t.I < 0 {
 			return fmt.Sprintf("(- %d)", -t.I)
@@ -891,6 +1011,8 @@ func (t *Term) write(sb *strings.Builder, depth int) {
 	case OConst:
 		if t.S.K == SBV {
 			fmt.Fprintf(sb, "%d", t.U)
+		} else if t.S.K == SFP {
+			fmt.Fprintf(sb, "%v", t.FVal())
 		} else {
 			sb.WriteString(smtConst(t))
 		}
@@ -1021,6 +1143,52 @@ func (c *evalCtx) eval(t *Term) uint64 {
 		}
 	case OBV2Int:
 		r = uint64(sext(a(0), t.Args[0].S.W))
+	case OFAdd, OFSub, OFMul, OFDiv:
+		x, y := math.Float64frombits(a(0)), math.Float64frombits(a(1))
+		var z float64
+		switch t.Op {
+		case OFAdd:
+			z = x + y
+		case OFSub:
+			z = x - y
+		case OFMul:
+			z = x * y
+		default:
+			z = x / y
+		}
+		r = math.Float64bits(z)
+	case OFNeg:
+		r = math.Float64bits(-math.Float64frombits(a(0)))
+	case OFLt, OFLe, OFEq:
+		x, y := math.Float64frombits(a(0)), math.Float64frombits(a(1))
+		ok := false
+		switch t.Op {
+		case OFLt:
+			ok = x < y
+		case OFLe:
+			ok = x <= y
+		default:
+			ok = x == y
+		}
+		if ok {
+			r = 1
+		}
+	case OFIsNaN:
+		if x := math.Float64frombits(a(0)); x != x {
+			r = 1
+		}
+	case OFIsNeg:
+		if x := math.Float64frombits(a(0)); x == x && math.Signbit(x) {
+			r = 1
+		}
+	case OFRound32:
+		r = math.Float64bits(float64(float32(math.Float64frombits(a(0)))))
+	case OFFromBits:
+		r = a(0)
+	case OFFromSBV:
+		r = math.Float64bits(float64(sext(a(0), t.Args[0].S.W)))
+	case OFFromInt:
+		r = math.Float64bits(float64(int64(a(0))))
 	case OApp:
 		var sb strings.Builder
 		sb.WriteString(t.Name)
